@@ -148,6 +148,13 @@ class __IntegrationState:
         return out
 
 
+#: verification hook: if the environment variable MOPTIPYAPPS_VERIF is "1",
+#: :func:`run_ode` records `(cycle, max_time)` at the start of every
+#: integration cycle in this list; otherwise it is `None`.
+_VERIF_EVENTS: list[tuple[int, float]] | None = \
+    [] if __import__("os").environ.get("MOPTIPYAPPS_VERIF") == "1" else None
+
+
 def run_ode(starting_state: np.ndarray,
             equations: Callable[[
                 np.ndarray, float, np.ndarray, np.ndarray], None],
@@ -273,6 +280,8 @@ def run_ode(starting_state: np.ndarray,
     cycle: int = 0
     while True:  # loop until we have a sane integration over a sane range
         cycle += 1
+        if _VERIF_EVENTS is not None:
+            _VERIF_EVENTS.append((cycle, float(max_time)))
         # first, we reset all the state information
         func_state.init()  # reset the function state
         denses.clear()  # always discard all interpolators, if there are any
